@@ -559,7 +559,7 @@ func main() {
 			specs = append(specs, normal(a, genExp(r)))
 		}
 		ts := genTS(r)
-		group := vgen.Pick(r, "valid", "abnormal", "abnormal", "wire", "wire", "struct", "struct", "boundary", "cache")
+		group := vgen.Pick(r, "valid", "abnormal", "abnormal", "wire", "wire", "struct", "struct", "boundary", "cache", "cache-same-ts", "cache-same-ts")
 		if !run.Want() {
 			run.Skip()
 			continue
@@ -675,6 +675,61 @@ func main() {
 				case "old":
 					steps = append(steps, step{os, true, "old timestamp-before-certificate"})
 				}
+			}
+		case "cache-same-ts":
+			// one cached verifier, same signer and key; consecutive segments share the info timestamp
+			// and differ only in the hop ExpTime (same NotBefore, other NotAfter), or share the end of
+			// the validity and differ in the timestamp (same NotAfter, other NotBefore)
+			cached = cached || r.Chance(2, 3)
+			a := w.ases[vgen.Pick(r, 0, 3, 6, 9)] // narrow certificate [now-3h, now+3h]
+			c := a.certs["narrow"]
+			k := r.Intn(n)
+			mk := func(exp uint8, ts time.Time) *seg.PathSegment {
+				sp := normal(a, exp)
+				withCert(sp, "narrow")
+				s2 := append([]*entrySpec{}, specs...)
+				s2[k] = sp
+				return mustBuild(ts, s2)
+			}
+			variant := vgen.Pick(r, "short-long", "short-long", "long-short-long", "short-long-same-parity",
+				"short-long-same-parity", "same-end", "same-end", "before-nb")
+			class = "cache-same-ts:" + variant
+			ts = now.Add(-time.Duration(r.Range(60, 3000)) * time.Second)
+			short := uint8(r.Range(0, 20))                  // ends before now+2h
+			long := uint8(r.Range(45, 255))                 // ends after now+3h20m
+			if variant == "short-long-same-parity" {
+				long = uint8(int(short)%2 + 2*r.Range(23, 127)) // same sub-second part of NotAfter
+			}
+			switch variant {
+			case "short-long", "short-long-same-parity":
+				steps = append(steps, step{mk(short, ts), true, "short covered"},
+					step{mk(long, ts), true, "long same-timestamp lifetime-outlives-certificate"})
+				if r.Bool() {
+					steps = append(steps, step{mk(short, ts), true, "short covered"})
+				}
+			case "long-short-long":
+				steps = append(steps, step{mk(long, ts), true, "long same-timestamp lifetime-outlives-certificate"},
+					step{mk(short, ts), true, "short covered"},
+					step{mk(long, ts), true, "long same-timestamp lifetime-outlives-certificate"})
+			case "same-end":
+				// covered: timestamp 10 min after NotBefore; not covered: timestamp before NotBefore,
+				// ExpTime raised by 2j so that the validity ends at the same instant
+				ts1 := c.nb.Add(10 * time.Minute)
+				j := r.Range(1, 20)
+				ts2 := ts1.Add(-time.Duration(2*j) * 337500 * time.Millisecond)
+				e1 := uint8(r.Range(0, 15))
+				g, b := step{mk(e1, ts1), true, "good covered"},
+					step{mk(e1+uint8(2*j), ts2), true, "old same-end timestamp-before-certificate"}
+				if r.Bool() {
+					steps = append(steps, g, b)
+				} else {
+					steps = append(steps, b, g, b)
+				}
+			case "before-nb":
+				tsb := c.nb.Add(-time.Duration(r.Range(1, 600)) * time.Second)
+				steps = append(steps, step{mk(short, ts), true, "short covered"},
+					step{mk(short, tsb), true, "old timestamp-before-certificate"},
+					step{mk(long, tsb), true, "old timestamp-before-certificate"})
 			}
 		case "wire":
 			ps := mustBuild(ts, specs)
